@@ -9,7 +9,7 @@ TRUSTED = {
     'A3': 'A3 allocation bound: a str/String has at most isize::MAX bytes, a Vec at most isize::MAX elements',
     'A4': 'A4 documented std behaviour of the transparent wrappers (vx_* functions whose body is the std call: slicing, find, trim_end_matches, split, '
           'repeat, Cow operations, mem::take, ...), vstd\'s own assume_specifications and vstd::utf8; in U9 also two axioms about std functions that are otherwise abstract there: '
-          'str::lines(s) is lines_c(s) (the \'\\n\'-separated pieces, a terminated piece without one \'\\r\' before its \'\\n\', the unterminated last piece as it is — carriage return included — and dropped when empty) — checked literally on the real str::lines within scope by the bounded contract A4.std_models — and char::is_whitespace(\'\\r\') (cr_is_ws; discharged on the real std function by the loop-free Kani harness K5)',
+          'str::lines(s) is lines_c(s) (the \'\\n\'-separated pieces, a terminated piece without one \'\\r\' before its \'\\n\', the unterminated last piece as it is — carriage return included — and dropped when empty) — checked literally on the real str::lines within scope by the bounded contract A4.std_models — and char::is_whitespace(\'\\r\') (cr_is_ws; discharged on the real std function by the loop-free Kani harness K5); the two char-level assume_specifications of prelude/std_more.vrs (char::is_ascii(c) == (c < 128), u8::is_ascii_whitespace(b) == b in {32, 9, 10, 12, 13}) are likewise discharged by K5, for every char and every u8',
     'A5': 'A5 Fragment accessors are pure (each accessor returns its ghost twin)',
     'A6': 'A6 (discharged as far as shape and safety go) smawk::online_column_minima(init, n, f) calls f(m, i, j) only with i < j < n, i < m.len() and a well-shaped table m, never panics, '
           'terminates, and returns a back-pointer table of length n with m[0].0 == 0 and m[k].0 < k: PROVED in unit U24 on the source of the smawk version Cargo.lock pins (read from the '
@@ -72,8 +72,8 @@ K3 = {'name': 'K3.f64_exact', 'file': 'k3_f64_exact.rs', 'inject': 'src/core.rs'
       'harnesses': [{'name': 'k3_f64_small_int_add'}, {'name': 'k3_f64_conv_monotone'}, {'name': 'k3_f64_zero_and_target'}, {'name': 'k3_probe_must_fail'}],
       'scope': 'complete: loop-free harnesses over the full domain of `usize` (bit-precise IEEE-754 binary64 in CBMC)'}
 K5 = {'name': 'K5.whitespace', 'file': 'k5_whitespace.rs', 'inject': 'src/indentation.rs', 'features': 'default', 'quick': True, 'timeout': 600,
-      'harnesses': [{'name': 'k5_cr_is_whitespace'}, {'name': 'k5_probe_must_fail'}],
-      'scope': 'complete: loop-free harness on concrete characters (the real char::is_whitespace)'}
+      'harnesses': [{'name': 'k5_cr_is_whitespace'}, {'name': 'k5_is_ascii_all_chars'}, {'name': 'k5_is_ascii_whitespace_all_u8'}, {'name': 'k5_probe_must_fail'}],
+      'scope': 'complete: loop-free harnesses on concrete characters (the real char::is_whitespace) and over every char / every u8 (the real char::is_ascii, u8::is_ascii_whitespace against the specs assumed in prelude/std_more.vrs)'}
 KANI = {'K1.default': K1, 'K1.no-default-features': K1MIN, 'K2.first_fit_n3': K2, 'K3.f64_exact': K3, 'K5.whitespace': K5}
 
 PROPS = {
